@@ -59,6 +59,9 @@ fault = st.one_of(
     st.tuples(st.sampled_from(["error", "crash"]), st.sampled_from(["open", "write", "close", "replace", "after_replace"]),
               st.integers(1, 3), st.integers(0, 6)).map(list),
     st.tuples(st.sampled_from(["error", "crash"]), st.just("write"), st.integers(1, 2), st.integers(0, 8)).map(list),
+    # a write that fails with something that is no OSError: the text layer refusing a string half way through the temp file
+    # (what file.write does with a lone surrogate) or the emitter refusing a value
+    st.tuples(st.sampled_from(["error_unicode", "error_value"]), st.just("write"), st.integers(1, 2), st.integers(0, 8)).map(list),
 )
 case_writer = st.fixed_dictionaries({
     "ops": st.lists(op, min_size=2, max_size=14),
@@ -123,6 +126,12 @@ class Baton:
                 if f[0] == "error":
                     self.error_injected = True
                     raise OSError("injected I/O error at %s" % name)
+                if f[0] == "error_unicode":
+                    self.error_injected = True
+                    raise UnicodeEncodeError("utf-8", "\udc80", 0, 1, "surrogates not allowed (injected at %s)" % name)
+                if f[0] == "error_value":
+                    self.error_injected = True
+                    raise ValueError("injected: value cannot be written (at %s)" % name)
                 self.crashed = True
                 raise SimulatedCrash(name)
 
@@ -307,7 +316,7 @@ def check_writer(case):
         if baton.crashed:
             classes.add("crash")
         if baton.error_injected:
-            classes.add("io-error-injected")
+            classes.add("io-error-injected" if baton.fault[0] == "error" else "non-io write failure injected")
         # ---- inspect the disk
         on_disk = "absent"
         if os.path.exists(fname):
